@@ -97,14 +97,22 @@ type execCtx struct {
 	recs   []*txRec
 
 	// driver-only
-	rc       *kit.RunCtx
-	baseline map[uint64]bool
-	self     uint64
-	stackBuf []byte
-	steps    int
-	maxPark  int
-	waited   bool
-	w        *world
+	rc           *kit.RunCtx
+	baseline     map[uint64]bool
+	self         uint64
+	stackBuf     []byte
+	steps        int
+	maxPark      int
+	waited       bool
+	commitWaited bool // a transaction's Commit() had to wait for the predecessor of an account it never accessed
+	w            *world
+
+	// starvation: from its (grace+1)-th turn on, the victim transaction is only
+	// released when nothing else can run; produces long-delayed predecessors
+	victim     int // transaction index, -1 = none
+	grace      int
+	victimRuns int
+	starved    bool
 }
 
 // curExec is the execution the harness SCORE belongs to (its instances are
@@ -115,7 +123,7 @@ var curExec *execCtx
 var debugStacks = os.Getenv("EXECSIM_DEBUG") != ""
 
 func newExecCtx(rc *kit.RunCtx, name string, active bool, level, ntx int) *execCtx {
-	x := &execCtx{name: name, active: active, level: level, rc: rc,
+	x := &execCtx{name: name, active: active, level: level, rc: rc, victim: -1,
 		parked: map[int]*park{}, notes: map[int][]string{}}
 	x.recs = make([]*txRec, ntx)
 	for i := range x.recs {
@@ -162,9 +170,10 @@ func goid() uint64 {
 }
 
 type gstate struct {
-	id      uint64
-	state   string
-	waitAcc bool // blocked in getAccountStateInLock/Commit waiting for a predecessor's commit
+	id         uint64
+	state      string
+	waitAcc    bool // blocked in getAccountStateInLock/Commit waiting for a predecessor's commit
+	waitCommit bool // ... specifically inside Commit()
 }
 
 func (x *execCtx) snapshot() []gstate {
@@ -206,7 +215,8 @@ func (x *execCtx) snapshot() []gstate {
 					chunk = buf[:e]
 				}
 				wa := st == "sync.Cond.Wait" && (bytes.Contains(chunk, []byte("getAccountStateInLock")) || bytes.Contains(chunk, []byte("worldVirtualState).Commit(")))
-				out = append(out, gstate{id, st, wa})
+				wc := st == "sync.Cond.Wait" && bytes.Contains(chunk, []byte("worldVirtualState).Commit("))
+				out = append(out, gstate{id, st, wa, wc})
 			}
 		}
 		next := bytes.Index(buf, []byte("\n\ngoroutine "))
@@ -284,6 +294,9 @@ func (x *execCtx) settle() {
 			}
 			if g.waitAcc {
 				cond = true
+			}
+			if g.waitCommit {
+				x.commitWaited = true
 			}
 		}
 		if !busy {
@@ -375,14 +388,29 @@ func (x *execCtx) drive(tr module.Transition) execOutcome {
 			}
 		}
 		x.mu.Unlock()
-		pick := 0
-		if len(keys) > 1 {
-			pick = rc.Tape.Choose("sched", len(keys))
+		cands := keys
+		if x.victim >= 0 && x.victimRuns > x.grace && len(keys) > 1 {
+			cands = make([]int, 0, len(keys))
+			for _, k := range keys {
+				if k != x.victim {
+					cands = append(cands, k)
+				}
+			}
+			if len(cands) < len(keys) {
+				x.starved = true
+			}
 		}
-		rc.Event("%s Q%s -> %s", x.name, sb.String(), taskName(keys[pick]))
+		pick := 0
+		if len(cands) > 1 {
+			pick = rc.Tape.Choose("sched", len(cands))
+		}
+		if cands[pick] == x.victim {
+			x.victimRuns++
+		}
+		rc.Event("%s Q%s -> %s", x.name, sb.String(), taskName(cands[pick]))
 		x.steps++
 		rc.Steps++
-		x.release(keys[pick])
+		x.release(cands[pick])
 	}
 }
 
